@@ -452,7 +452,15 @@ def run(ctx):
     def lengths():
         for rel, qual, want in ((AES, 'AES.enc', 'pack(Poly(%s))'), (AES, 'AES.dec', 'pack(Poly(%s))')):
             ex = [x for x in ctx.summ(rel, qual).effects if x[0] == 'exit' and x[1] == 'return']
-            ctx.check(qual + ' returns the packed state', len(ex) == 1 and ex[0][2] == ctx.spec_expr(want % 'X', {'X': A(1)}),
+            def state_object(t):
+                # the state is updated in place by the round steps: mut('arg0:<step>', state, ..) layers around Poly(M)
+                while t[0] == 'mut' and type(t[1]) is str and t[1].startswith('arg0:'):
+                    t = t[2]
+                return t
+            got_ = ex[0][2] if len(ex) == 1 else None
+            if got_ is not None and got_[0] == 'call' and len(got_[2]) == 1:
+                got_ = ('call', got_[1], (state_object(got_[2][0]),), got_[3])
+            ctx.check(qual + ' returns the packed state', len(ex) == 1 and got_ == ctx.spec_expr(want % 'X', {'X': A(1)}),
                       'result is not pack(state)', ctx.where(rel, qual))
             asserts = [x[1] for x in ctx.summ(rel, qual).effects if x[0] == 'assert']
             ctx.check(qual + ' asserts the block size', ctx.spec_expr('Poly(X).dim*8==self.blocksize', {'X': A(1), 'self': SELF}) in asserts,
